@@ -61,7 +61,20 @@ THEOREMS = ["Qclib.C04_ctrl_state", "Qclib.C04_ctrl_state_bits", "Qclib.C04_slic
             # part B (props/c04_u2.py, Props/C04U2.lean)
             "Qclib.C04_pairs", "Qclib.C04_ladder_diag_partial", "Qclib.C04_ladder_weights", "Qclib.C04_ladder_run_partial",
             "Qclib.C04_qdmcu_step", "Qclib.C04_qdmcu",
-            "Qclib.C04_mcg_dispatch", "Qclib.C04_mcu_base", "Qclib.C04_mcu_error_partial"]
+            "Qclib.C04_mcg_dispatch", "Qclib.C04_mcu_base", "Qclib.C04_mcu_error_partial",
+    "Qclib.C04_lm_bracket",
+    "Qclib.C04_ldmcsp_spec_all",
+    "Qclib.C04_eig_algebra",
+    "Qclib.C04_eig_both",
+    "Qclib.C04_mv_bracket",
+    "Qclib.C04_ldmcsu_eig",
+    "Qclib.C04_ldmcsu_eig_full",
+    "Qclib.C04_ldmcsu_eig_full_defined",
+    "Qclib.C04_ldmcsu_eig_spec",
+    "Qclib.C04_ldmcu_full",
+    "Qclib.C04_ldmcu_basis",
+    "Qclib.C04_ldmcu_groups",
+    "Qclib.C04_qdmcu_full"]
 TRUSTED = [
     "qiskit UnitaryGate / .inverse() / .control(1, ctrl_state) / mcx / H / X matrices (K4; the Operator oracle exercises them)",
     "np.linalg.eig(2x2) and OneQubitEulerDecomposer._params_zyz are inputs of the model (their specifications are re-checked "
@@ -345,7 +358,9 @@ def eval_case(args):
     except Exception as e:  # any other exception of qclib on a valid input
         out["exc"] = type(e).__name__ + ": " + str(e)[:120]
         return out
-    if do_oracle and defn.num_qubits <= 11:
+    if do_oracle == "state":
+        out["err"] = state_error(defn, us, k, cs)
+    elif do_oracle and defn.num_qubits <= 11:
         from qiskit.quantum_info import Operator
         with warnings.catch_warnings():
             warnings.simplefilter("ignore")
@@ -353,6 +368,35 @@ def eval_case(args):
         ref = ref_matrix(us, k, cs)
         out["err"] = float(np.abs(opm - ref).max()) if opm.shape == ref.shape else float("inf")
     return out
+
+
+def state_error(defn, us, k, cs, reps=2):
+    """Cheap form of the Operator oracle for wide gates (boundary sizes k >= 8): the definition applied to `reps` dense
+    pseudo-random states (fixed by k and the pattern, every amplitude non-zero) versus the reference controlled operator
+    applied to the same states; sup-norm of the difference.  A wrong operator D != 0 moves a generic state by |D psi| > 0."""
+    from qiskit.quantum_info import Statevector
+    nt = len(us)
+    if defn.num_qubits != k + nt:
+        return float("inf")
+    dim = 2 ** (k + nt)
+    pat = int(cs, 2) if cs is not None else 2 ** k - 1
+    full = np.eye(1)
+    for u in us:
+        full = np.kron(u, full)
+    idx = [pat + (h << k) for h in range(2 ** nt)]
+    g = np.random.default_rng(977 * k + 31 * nt + pat)
+    worst = 0.0
+    for _ in range(reps):
+        psi = g.standard_normal(dim) + 1j * g.standard_normal(dim)
+        psi /= np.linalg.norm(psi)
+        ref = psi.copy()
+        ref[idx] = full @ psi[idx]
+        with warnings.catch_warnings():
+            warnings.simplefilter("ignore")
+            got = Statevector(psi).evolve(defn).data
+        # amplitudes of a normalised dense state are ~ 2^-(n/2): rescale so that the 1e-7 tolerance keeps its meaning
+        worst = max(worst, float(np.abs(got - ref).max()) * math.sqrt(dim))
+    return worst
 
 
 def run_cases(ctx, cases):
@@ -733,6 +777,146 @@ def gen_cases(ctx, kmax_tie, kmax_oracle, exhaustive_k, exhaustive_fams_k):
     return cases
 
 
+# ------------------------------------------------------------------------------------------------
+# boundary-value pass: inputs AT and next to every size / threshold comparison of the anchored files
+# ------------------------------------------------------------------------------------------------
+#   ldmcsu.py          len(controls) == 1                         k = 1, 2 (gen_cases, exhaustive)
+#                      k_1 = ceil(k/2), k_2 = floor(k/2); slices controls[k_1 : 2 k_1 - 2], controls[k_1 - k_2 + 2 : k_1]
+#                                                                 odd / even k = 2..11, crossed with the four branch
+#                                                                 classes (both / main / secondary / neither diagonal real);
+#                                                                 the half-size McxVchainDirty changes construction at
+#                                                                 k_i = 1, 2, 3 (C3X), >= 4 (chain; action_only and the
+#                                                                 qiskit inverse first differ there: k = 8, 9)
+#                      isclose(.imag, 0, abs_tol=1e-12) x 4       dust 3e-13 (inside) and 3e-12, 1e-11 (outside) on all four
+#                                                                 entries, and on ONE entry with the partner exactly real
+#                                                                 (each conjunct of the two `and`s decides alone)
+#                      x_value == 0; z_value.real < 0             x = +-0.0, 1e-300, 1e-17, 1e-13; Re z = 0, +-1e-9
+#                      LdMcSpecialUnitary: num_controls > 0, len < 3, len < 6 (action_only), LinearMcx(k-1) size branches
+#                                                                 k = 0 (entry_point_probes), 1..11
+#   multitargetmcsu2.py len(controls) == 1 (probes); the same k_1/k_2 slices with `num_target_qubit` targets;
+#                      `not secondary and main` H-sandwich test per target; mcx.py `num_ctrl == 3 and num_target < 2`
+#                                                                 k = 2..9 x nt = 1, 2, 3 with fixed mixed diagonal types
+#   float thresholds: generated dust keeps a factor >= 3 from abs_tol = 1e-12 (excluded band (3.3e-13, 3e-12)).
+
+def mixed_pattern(k):
+    """A pattern with zeros and ones in both halves: '0101..' read from control 0 upwards."""
+    return "".join("10"[(k - 1 - j) % 2] for j in range(k))
+
+
+def one_entry_dust(u, i, j, eps):
+    d = np.array(u, dtype=complex)
+    d[i, j] += eps * 1j
+    return d
+
+
+def boundary_cases(ctx):
+    r = ctx.rng
+    fams = families(r)
+    cases = []
+
+    def orc(width):
+        return True if width <= 8 else "state"
+
+    # -- Ldmcsu: every size k = 2..11 (k_1, k_2 parity and the V-chain construction of each half) x branch class
+    for k in range(2, 12):
+        pats = [None, mixed_pattern(k)] if k <= 9 else [mixed_pattern(k)]
+        for fam in ("RY", "main-real", "sec-real", "haar"):
+            for cs in pats:
+                ctx.count("boundary:ldmcsu:k x diagonal-type")
+                cases.append(("Ldmcsu", "bv-" + fam, [fams[fam]], k, cs, orc(k + 1)))
+    # -- LdMcSpecialUnitary: k around < 3, < 6 and the LinearMcx(k-1) size branches (k + 1 wires: < 5, 5, 6, 7, >= 8)
+    for k in range(1, 12):
+        pats = [None, mixed_pattern(k)] if k <= 9 else [mixed_pattern(k)]
+        for cs in pats:
+            ctx.count("boundary:ldmcsp:k")
+            cases.append(("LdMcSpecialUnitary", "bv-haar2", [fams["haar2"]], k, cs, orc(k + 1)))
+    # -- MultiTargetMCSU2: k x number of targets with fixed diagonal types (H on one target, none on the other)
+    mt = {1: ["main-real"], 2: ["main-real", "sec-real"], 3: ["RY", "main-real", "RZ"]}
+    for k in range(2, 10):
+        for nt in (1, 2, 3):
+            if nt == 3 and k not in (2, 3, 5, 6, 7, 8):
+                continue
+            pats = [None, mixed_pattern(k)] if k <= 6 else [mixed_pattern(k)]
+            for cs in pats:
+                ctx.count("boundary:multitarget:k x nt")
+                cases.append(("MultiTargetMCSU2", "bv-" + "+".join(mt[nt]), [fams[n] for n in mt[nt]], k, cs, orc(k + nt)))
+    # -- abs_tol = 1e-12 of the real-diagonal tests: all four entries dusty, inside and outside
+    for eps, side in ((3e-13, "inside"), (3e-12, "outside"), (1e-11, "outside")):
+        for fam, u in (("RY0.5", ry(0.5)), ("RX1.1", rx(1.1)), ("RZ0.9", rz(0.9)), ("main-real", fams["main-real"]),
+                       ("sec-real", fams["sec-real"])):
+            ctx.count("boundary:imag abs_tol:" + side)
+            nm = f"bv-{fam}+dust{eps:g}"
+            cases.append(("Ldmcsu", nm, [dusty(u, eps)], 2, None, True))
+            cases.append(("Ldmcsu", nm, [dusty(u, eps)], 3, "010", True))
+            if side == "inside":
+                cases.append(("MultiTargetMCSU2", nm + "+RZ0.4", [dusty(u, eps), rz(0.4)], 3, "011", True))
+    # -- one conjunct at a time: a single entry leaves the real axis, its partner stays exactly real
+    singles = [("main-real", 0, 0), ("main-real", 1, 1), ("sec-real", 0, 1), ("sec-real", 1, 0),
+               ("RY", 0, 0), ("RY", 1, 1), ("RY", 0, 1), ("RY", 1, 0)]
+    for fam, i, j in singles:
+        for eps, side in ((3e-13, "inside"), (3e-12, "outside"), (1e-10, "outside")):
+            ctx.count("boundary:imag abs_tol:single-entry:" + side)
+            u = one_entry_dust(fams[fam], i, j, eps)
+            nm = f"bv-{fam}+im[{i}{j}]{eps:g}"
+            cases.append(("Ldmcsu", nm, [u], 2, None, True))
+            cases.append(("Ldmcsu", nm, [u], 3, "010", True))
+            if fam == "RY" or side == "inside":     # the other diagonal stays real: still a listed rotation
+                cases.append(("MultiTargetMCSU2", nm + "+RZ0.4", [u, rz(0.4)], 3, "011", True))
+                cases.append(("MultiTargetMCSU2", "RZ0.4+" + nm, [rz(0.4), u], 2, "01", True))
+    # -- x == 0 / Re z < 0 of _compute_gate_a, through the whole gate: [[conj z, x], [-x, z]]
+    for x, zs in ((0.0, (1j, -1j, np.exp(2.5j))), (1e-13, (np.exp(0.45j), np.exp(2.5j), 1j)), (1e-17, (np.exp(-2.5j), -1j, -1.0)),
+                  (0.6, (0.8j, -0.8j, complex(1e-9, 0.8), complex(-1e-9, 0.8)))):
+        for z in zs:
+            z = complex(z)
+            ctx.count("boundary:gate_a:x==0 / Re z<0 (whole gate)")
+            u = np.array([[np.conj(z), x], [-x, z]])
+            nm = f"bv-xz:x={x:g}:z={z.real:g}{z.imag:+g}j"
+            cases.append(("Ldmcsu", nm, [u], 2, None, True))
+            cases.append(("Ldmcsu", nm, [u], 3, "010", True))
+            cases.append(("MultiTargetMCSU2", nm + "+RY", [u, fams["RY"]], 2, "10", True))
+    return cases
+
+
+def boundary_gate_a(ctx):
+    """`_compute_gate_a` next to its two comparisons: x_value == 0 (+-0.0, denormal-range, rounding-level, small) and
+    z_value.real < 0 (Re z = 0 exactly, +-1e-9), tied to the model and checked against (A^dagger X A X)^2 = [[conj z, x],[-x, z]]."""
+    from qclib.gates.ldmcsu import Ldmcsu
+    zs_any = [1j, -1j, complex(1e-9, 1.0), complex(-1e-9, 1.0), np.exp(0.3j), np.exp(3j), np.exp(-3j), 1.0]
+    for x in (0.0, -0.0, 1e-300, -1e-300, 1e-17, -1e-17, 1e-13, 1e-9):
+        for z in zs_any:
+            z = complex(z)
+            z = z / abs(z)
+            if x != 0:
+                z = z * math.sqrt(max(0.0, 1.0 - x * x))
+            ctx.count("boundary:gate_a:x==0" if abs(x) < 1e-200 else "boundary:gate_a:x tiny")
+            with warnings.catch_warnings():
+                warnings.simplefilter("ignore")
+                a = Ldmcsu._compute_gate_a(x, z)
+            ctx.tie({"op": "gate_a", "x": float(x), "zre": z.real, "zim": z.imag}, ["op_a ; " + mline(a)],
+                    label=f"_compute_gate_a boundary x={x!r} z={z}")
+            w = np.array([[np.conj(z), x], [-x, z]])
+            p = a.conj().T @ PX @ a @ PX
+            ctx.assumption_checks += 1
+            key = f"gate_a:identity:x={x!r}:z={z!r}"
+            if not (np.abs(p @ p - w).max() <= 1e-9 and np.abs(a @ a.conj().T - I2).max() <= 1e-9):
+                ctx.fail(key, "(A^dagger X A X)^2 != [[conj z, x],[-x, z]] or A not unitary at the x == 0 / Re z < 0 boundary",
+                         {"part": "su2", "call": "Ldmcsu._compute_gate_a", "x": x, "z": [z.real, z.imag]})
+            else:
+                ctx.ok(key, nontrivial=False)
+
+
+def underflow_probe(ctx):
+    """The `x_value == 0` boundary of `_compute_gate_a` at z = -1: for 0 < |x| < ~1e-154 the square x**2 underflows, the
+    cancellation-free form of 1 + Re z becomes 0 (or a denormal) and gate A is NaN / inaccurate (finding of the
+    boundary-value pass; x = 0 and |x| >= 1e-150 are fine and are probed as well)."""
+    cases = []
+    for xs in ("1e-17", "1e-150", "1e-160", "1e-200"):
+        x = float(xs)
+        ctx.count("boundary:gate_a:near -I with tiny x")
+        cases.append(("Ldmcsu", "minusI+x" + xs, [np.array([[-1, x], [-x, -1]], dtype=complex)], 2, None, True))
+    run_cases(ctx, cases)
+
+
 def run(ctx, scale=0):
     ctx.notes.append("MultiTargetMCSU2 oracle restricted to unitaries with a real main or secondary diagonal; for general "
                      "SU(2) the code raises ValueError (no eigenbasis path) - outside the property ('each listed rotation').")
@@ -750,6 +934,9 @@ def run(ctx, scale=0):
     else:
         cases = gen_cases(ctx, kmax_tie=9, kmax_oracle=10, exhaustive_k=5, exhaustive_fams_k=4)
     run_cases(ctx, cases)
+    boundary_gate_a(ctx)
+    run_cases(ctx, boundary_cases(ctx))
+    underflow_probe(ctx)
     probes(ctx)
     if U2 is not None:
         U2.run(ctx)
@@ -757,7 +944,8 @@ def run(ctx, scale=0):
 
 def case_from_replay(r):
     us = [np.array([complex(m[2 * i], m[2 * i + 1]) for i in range(4)]).reshape(2, 2) for m in r["unitaries"]]
-    return (r["cls"], r.get("family", "replay"), us, int(r["k"]), r.get("ctrl_state"), True)
+    k = int(r["k"])
+    return (r["cls"], r.get("family", "replay"), us, k, r.get("ctrl_state"), True if k + len(us) <= 10 else "state")
 
 
 def search(ctx, hints):
